@@ -72,6 +72,11 @@ def ops():
         out.append((f"set_v{val}n{na}k{kw}", "code"))
     out.append(("set_newattr_empty", "code"))
     out.append(("setattr_b", "code"))
+    out.append(("setattr_b_none", "code"))
+    out.append(("set_kw_context", "code"))
+    out.append(("attr_assign_context", "code"))
+    out.append(("read_context", "code"))
+    out.append(("exist_b", "code"))
     out.append(("del_ent", "code"))
     out.append(("delete_ent", "code"))
     out.append(("del_attr_a", "code"))
@@ -181,6 +186,35 @@ def step(m, op):
         attrs["b"] = [1]
         sm.set(E1N, None, attrs)
         return wrap_stmt("state.setattr('pyscript.e1.b', [1])"), ("ok", None)
+    if op == "setattr_b_none":
+        # an attribute whose value is None is an attribute like any other (it exists, can be read and deleted)
+        if not exists:
+            return wrap_stmt("state.setattr('pyscript.e1.b', None)"), NE
+        attrs = dict(cur[1])
+        attrs["b"] = None
+        sm.set(E1N, None, attrs)
+        return wrap_stmt("state.setattr('pyscript.e1.b', None)"), ("ok", None)
+    if op == "set_kw_context":
+        # a keyword named 'context' that is not a Context object is an ordinary attribute
+        if not exists:
+            return None, None
+        attrs = dict(cur[1])
+        attrs["context"] = "kitchen"
+        sm.set(E1N, None, attrs)
+        return wrap_stmt("state.set('pyscript.e1', context='kitchen')"), ("ok", None)
+    if op == "attr_assign_context":
+        if not exists:
+            return wrap_stmt("pyscript.e1.context = 'hall'"), NE
+        attrs = dict(cur[1])
+        attrs["context"] = "hall"
+        sm.set(E1N, None, attrs)
+        return wrap_stmt("pyscript.e1.context = 'hall'"), ("ok", None)
+    if op == "read_context":
+        if not exists:
+            return wrap("pyscript.e1.context"), NE
+        return wrap("pyscript.e1.context"), (("ok", ("v", repr(cur[1]["context"]))) if "context" in cur[1] else AE)
+    if op == "exist_b":
+        return wrap("state.exist('pyscript.e1.b')"), ("ok", ("v", repr(bool(exists and "b" in cur[1]))))
     if op in ("del_ent", "delete_ent"):
         code = wrap_stmt("del pyscript.e1") if op == "del_ent" else wrap_stmt("state.delete('pyscript.e1')")
         if not exists:
